@@ -442,7 +442,8 @@ pub fn check(m: Arc<dyn DynMonitor>, tier: Tier, seed: u64, scrut_bin: PathBuf) 
         scratch_root: scratch_root.clone(),
         plan: plan.clone(),
     });
-    let known = Known::load(&Path::new(VERIF).join("KNOWN_FINDINGS.txt"));
+    let known_path = std::env::var_os("VH_KNOWN").map(PathBuf::from).unwrap_or_else(|| Path::new(VERIF).join("KNOWN_FINDINGS.txt"));
+    let known = Arc::new(Known::load(&known_path));
     let agg = Arc::new(Mutex::new(Agg::default()));
 
     // 1. pinned witnesses
@@ -528,12 +529,14 @@ pub fn check(m: Arc<dyn DynMonitor>, tier: Tier, seed: u64, scrut_bin: PathBuf) 
         let agg = agg.clone();
         let next = next.clone();
         let chunks = chunks.clone();
+        let known = known.clone();
         handles.push(std::thread::spawn(move || loop {
             let i = next.fetch_add(1, Ordering::SeqCst) as usize;
             if i >= chunks.len() {
                 break;
             }
-            if agg.lock().unwrap().violations.len() >= MAX_VIOLATION_SIGS {
+            // stop early only when many *unlisted* signatures have been collected (known findings do not count)
+            if agg.lock().unwrap().violations.keys().filter(|s| known.matching(&ctx.id, s).is_none()).count() >= MAX_VIOLATION_SIGS {
                 break;
             }
             let (a, b, always_trace, case_timeout_s) = chunks[i];
